@@ -7,6 +7,8 @@ from fractions import Fraction as Fr
 import numpy as np
 
 from .. import engine, refmodel as rm
+from .. import histories
+from ..histories import t_callhist        # worker task of the history harness (mc/histories.py)
 
 PID = 'C20'
 MOD = 'mc.props.c20'
@@ -322,6 +324,8 @@ def chk_hex_history(case, acc, seed):
 DISPATCH = {'hexhist': chk_hex_history, 'pad': chk_pad, 'stencil': chk_stencil, 'subarray': chk_subarray, 'rebin': chk_rebin, 'shape': chk_shape, 'hex': chk_hex}
 
 
+DISPATCH['histop'] = histories.chk_case
+
 def t_pad(arg, acc):
     tier, seed = arg['tier'], arg['seed']
     nmax = 6 if tier == 'quick' else 7
@@ -405,6 +409,7 @@ def run(tier, seed, acc, procs=None):
             tasks.append(('t_hex', {'tier': tier, 'seed': seed, 'rings': rings, 'shard': sh, 'nshard': ns}))
     acc.states += 1
     acc.transitions += len(tasks)
+    tasks += histories.tasks_for(PID, seed)        # pairwise call histories over the operations this property is anchored in
     engine.run_parallel(MOD, tasks, acc, procs)
     return {
         'rule': f'pad: every (n0,n1) in 1..{nmax} -> every (S0,S1) in 1..{nmax + 1}, 2-D and cubes of depth 1-3, unique cell ids, against '
@@ -421,5 +426,8 @@ def run(tier, seed, acc, procs=None):
 
 
 def replay(case, acc):
+    if case.get('kind') == 'histop':
+        import os as _os
+        return histories.chk_case(case, acc, int(_os.environ.get('VERIF_SEED', '0') or 0))
     seed = int(os.environ.get('VERIF_SEED', '0') or 0)
     DISPATCH[case['kind']](case, acc, seed)
